@@ -577,6 +577,76 @@ def prt_form(sink, msgs):
     return rec(0, 0)
 
 
+def prt_allowed(msgs, toks):
+    """Every (bytes on the descriptor, kernel answers consumed) the print macros may produce for the messages `msgs`
+    under the kernel answers `toks` (concrete tokens: a<k> = k >= 1 bytes taken, a0 = 0 answered to a non-empty
+    buffer, o = 0 answered to a zero-length write, i = EINTR, e<n> = errno).  Plain byte semantics, independent of
+    the model: a message goes out front to back, the k bytes an answer takes are the next k bytes; the first error,
+    EINTR or a0 ends the message right there (nothing of it is written afterwards); the newline of the `ln` forms is
+    then attempted with exactly one write, whatever happened to the message.  Where the write_str pieces of a
+    message begin and end is toolchain behaviour this oracle does not know: an `o` (or an error) where nothing is
+    left of the rendering may belong to an empty piece of this message or not, both readings are allowed.
+    Returns None when the script holds an answer larger than what was offered (not a kernel behaviour)."""
+    res = set()
+    n = len(toks)
+    if any(t[0] == "A" for t in toks):
+        return None
+
+    def fails(t):
+        return t == "a0" or t == "i" or t[0] == "e"
+
+    def message(j, i, sink):
+        R = msgs[j][0]
+        pos = 0
+        while True:
+            if pos == len(R):
+                newline(j, i, sink + R)              # the message ends here ...
+                if i < n and toks[i] == "o":         # ... or an empty piece issues its zero-length write
+                    i += 1
+                    continue
+                if i < n and toks[i] != "a0" and fails(toks[i]):
+                    newline(j, i + 1, sink + R)      # ... which may be the write that fails
+                return
+            if i == n:                               # script exhausted: the kernel takes everything offered
+                pos = len(R)
+                continue
+            t = toks[i]
+            i += 1
+            if t == "o":
+                continue
+            if fails(t):
+                newline(j, i, sink + R[:pos])
+                return
+            k = int(t[1:])
+            if k > len(R) - pos:
+                return
+            pos += k
+
+    def newline(j, i, sink):
+        NL = msgs[j][1]
+        if not NL:
+            return after(j, i, sink)
+        if i == n:
+            return after(j, i, sink + NL)
+        t = toks[i]
+        if t == "o":
+            return
+        if fails(t):
+            return after(j, i + 1, sink)
+        if int(t[1:]) > len(NL):
+            return
+        return after(j, i + 1, sink + NL)
+
+    def after(j, i, sink):
+        if j + 1 == len(msgs):
+            res.add((sink, i))
+        else:
+            message(j + 1, i, sink)
+
+    message(0, 0, b"")
+    return res
+
+
 def judge_prt(w, out):
     m = PRT_OUT_RE.match(out)
     if out.startswith("runaway "):
@@ -589,11 +659,16 @@ def judge_prt(w, out):
     msgs, exp_fd, toks = prt_messages(w)
     if fd not in (exp_fd, "-") or (fd == "-" and sink):
         return "wrong descriptor: fd %s, expected %s" % (fd, exp_fd)
+    allowed = prt_allowed(msgs, toks)
+    if allowed is not None and (sink, used) in allowed:
+        return None
     consumed = toks[:used]
     failed = any(t == "i" or t[0] == "e" for t in consumed)
     zero = any(t == "a0" for t in consumed)
     full = b"".join(R + NL for (R, NL) in msgs)
     if sink == full:
+        # everything arrived, once and in order: not a violation of the property whatever the write calls were
+        # (a drift in the calls is reported by the comparison with the model)
         return None
     if not failed and not zero:
         # the kernel only ever took fewer bytes than offered: everything must arrive, once, in order
@@ -602,7 +677,12 @@ def judge_prt(w, out):
                 next(i for i in range(len(full)) if sink[i] != full[i]), len(full))
         return "wrong bytes reached the descriptor (lost or duplicated): got %d bytes, expected %d" % (len(sink), len(full))
     if prt_form(sink, msgs):
-        return None        # a message cut short at the failing write (and the newline of println! still attempted)
+        if allowed is None:
+            return None    # an answer larger than the buffer offered: only the form is judged
+        exp = sorted(len(s_) for (s_, _) in allowed)
+        return ("message not cut where the write failed: a prefix of the message (and newline) reached the descriptor, but %d bytes / %d "
+                "answers consumed where the kernel's answers determine %s bytes (writing goes on after a failed write, or stops early)"
+                % (len(sink), used, "/".join(str(x) for x in exp[:4])))
     if zero:
         return "bytes dropped after a write returned 0: the rest of the piece is skipped and later pieces are still written"
     return "bytes out of order or lost in the middle of a message after a failed write"
@@ -696,7 +776,7 @@ def run(ctx):
         "UTF-8 validity is an abstract predicate in the theorems; the driver uses a Lean re-implementation of core::str::from_utf8's acceptance, compared with the real one on every rts case",
         "usize arithmetic does not overflow (all sizes are bounded by a Vec capacity <= isize::MAX)",
         "write_fmt: core::fmt::write turns the arguments into a sequence of write_str calls and stops at the first error (observed through a Display impl issuing one write_str per item)",
-        "print macros: the write(2) system call on fd 1/2 is scripted through the sc-shim (returns k <= count, 0, -EINTR or -errno; never more than count); the bytes the scripted kernel took, in order, are compared with a rendering of the message computed by the check itself",
+        "print macros: the write(2) system call on fd 1/2 is scripted through the sc-shim (returns k <= count, 0, -EINTR or -errno; never more than count); the bytes the scripted kernel took, in order, and the number of answers consumed are compared with what a rendering of the message computed by the check itself and the answers determine (message cut exactly at the first error / EINTR / 0 answered to a non-empty buffer, nothing of it written afterwards, the newline of the ln forms then attempted with one write)",
         "print macros: which write_str pieces core::fmt::write issues for a format string (one per non-empty literal segment up to 65535 bytes, literal-only strings as a single piece, `-` and the digits of an i64 separately) is toolchain behaviour, observed by the correspondence, not proved; the file:line header of dbg! is taken from the run",
         "print macros: that print! locks __STDOUT_LOCK / eprint! __STDERR_LOCK around the whole message is not part of this check (single-threaded harness)",
     ]
@@ -710,8 +790,9 @@ def run(ctx):
     streams = [("read_to_end", gen_reader_cases(ctx, thorough)), ("read_to_string", gen_string_cases(ctx, thorough)),
                ("read_exact", gen_exact_cases(ctx, thorough)), ("write", gen_writer_cases(ctx, thorough)),
                ]
-    # the zero-return scripts go in a stream of their own: their (known) spec failures must not crowd other failures
-    # out of the bounded list `correspond` reports
+    # the zero-return scripts go in a stream of their own (a regression of the defect repaired by e1fd457 - try_print
+    # answering Ok to a 0 for a non-empty buffer - fails many of them: it must not crowd other failures out of the
+    # bounded list `correspond` reports)
     pr = gen_print_cases(ctx, thorough)
     streams += [("print", [c for c in pr if " k0" not in c]), ("print_zero_return", [c for c in pr if " k0" in c])]
     drift = 0
